@@ -127,10 +127,27 @@ def rule_M2(ctx, qualname, outer_attr='outer_bound', rid='M2'):
     cfg = cfg_of(f)
     selfn = f.self_name
     rets = [n for n in walk_no_nested(f.node) if isinstance(n, ast.Return)]
-    ctx.require(rets and all(isinstance(r.value, ast.Name) for r in rets),
-                '%s: contains() does not return a mask variable' % qualname)
-    m = rets[0].value.id
-    ctx.require(all(r.value.id == m for r in rets), '%s: several mask variables' % qualname)
+    ctx.require(rets, '%s: contains() has no return' % qualname)
+    # the mask variable: a returned name, or the name that is met in a returned `m & x`
+    names = []
+    other = []
+    for r in rets:
+        v = r.value
+        if isinstance(v, ast.Name):
+            names.append(v.id)
+        elif isinstance(v, ast.BinOp) and isinstance(v.op, ast.BitAnd) and any(
+                isinstance(s_, ast.Name) for s_ in (v.left, v.right)):
+            names.append([s_.id for s_ in (v.left, v.right) if isinstance(s_, ast.Name)][0])
+        else:
+            other.append(r)
+    if other or len(set(names)) != 1:
+        ctx.ob(rid, '%s:returns-narrowed-outer-mask' % qualname, False,
+               f.where(other[0] if other else rets[0]),
+               'contains() returns `%s`, which is not the mask of outer_bound.contains() '
+               'narrowed by further tests: a point outside the outer bound can be reported as '
+               'contained' % (unparse(other[0].value)[:60] if other else 'different masks'))
+        return 0
+    m = names[0]
     inits, narrows, bad = [], [], []
     for n in cfg.nodes:
         if n.kind != 'stmt':
@@ -165,6 +182,8 @@ def rule_M2(ctx, qualname, outer_attr='outer_bound', rid='M2'):
                 bad.append((n, 'mask is combined with %s' % type(a.op).__name__))
     ok_init = len(inits) == 1 and all(cfg.dominates(inits[0].id, x.id)
                                       for x in narrows + [cfg.node_of(r) for r in rets])
+    ctx.ob(rid, '%s:returns-narrowed-outer-mask' % qualname, True, f.where(),
+           'every return hands back the mask variable `%s`' % m)
     ctx.ob(rid, '%s:starts-from-outer-bound' % qualname, ok_init, f.where(),
            'the mask is initialised by self.%s.contains(points), which dominates every later '
            'use' % outer_attr if ok_init else
